@@ -17,6 +17,14 @@ variable {V : Type} {O : Type}
 def overlay (x : Inst V) (S : List Nat) (src : Nat → V) : Inst V :=
   fun f => if S.contains f then src f else x f
 
+/-- `{**x_i, **sampled_values}` with `sampled_values` a dict (association list): its entries win -/
+def overlayD (x : Inst V) (sampled : Dict V) : Inst V :=
+  fun f => (sampled.find? f).getD (x f)
+
+/-- the next `random.randrange(n)`: `idxs p n` is what the generator returns for the `p`-th index draw when asked for range `n`;
+    the state is the number of index draws made so far -/
+def drawIdx (idxs : Nat → Nat → Nat) (n : Nat) : StateM Nat Nat := fun p => (idxs p n, p + 1)
+
 /-- MarginalImputer, joint strategy: one stored row per inner sample -/
 def jointInputs (rows : Nat → Inst V) (S : List Nat) (x : Inst V) (n : Nat) (rowOf : Nat → Nat) : List (Inst V) :=
   (List.range n).map (fun j => overlay x S (rows (rowOf j)))
